@@ -30,6 +30,34 @@ fn main() {
             Err(e) => rejected.push_str(&format!("{module}|{file}|{e:#}\n")),
         }
     }
+    // grammars that break a documented restriction: the generator has to reject every one of them (their output, if any, is
+    // written outside src/gen and never compiled)
+    let mut accepted = String::new();
+    let mut refused = String::new();
+    if let Ok(list) = fs::read_to_string("grammars/must_reject.txt") {
+        fs::create_dir_all("src/gen_reject").unwrap();
+        for line in list.lines() {
+            let p: Vec<&str> = line.split('|').collect();
+            if p.len() < 4 {
+                continue;
+            }
+            let (name, file, derives, uc) = (p[0], p[1], p[2], p[3]);
+            let dest = format!("src/gen_reject/{name}.rs");
+            let _ = fs::remove_file(&dest);
+            let mut c = peginator_codegen::Compile::file(format!("grammars/{file}"))
+                .destination(dest.clone())
+                .derives(derives.split(',').filter(|s| !s.is_empty()).map(|s| s.to_string()).collect());
+            if !uc.is_empty() {
+                c = c.user_context_type(uc);
+            }
+            match c.run() {
+                Ok(()) => accepted.push_str(&format!("{name}|{file}\n")),
+                Err(e) => refused.push_str(&format!("{name}|{file}|{}\n", format!("{e:#}").replace('\n', " "))),
+            }
+        }
+    }
+    fs::write("src/gen/MUST_REJECT_ACCEPTED.txt", accepted).unwrap();
+    fs::write("src/gen/MUST_REJECT_REFUSED.txt", refused).unwrap();
     fs::write("src/gen/mod.rs", mods).unwrap();
     fs::write("src/gen/REJECTED.txt", rejected).unwrap();
     println!("cargo:rerun-if-changed=grammars");
